@@ -311,10 +311,14 @@ impl Model {
             };
             let ci = insts.get(&key).map(cnt).unwrap_or(0);
             let ct: i64 = insts.values().map(cnt).sum();
+            // an instance that still has a stored sample of ANY kind (data or dispose/unregister
+            // notification) is held by the reader under every convention; only instances without
+            // stored samples are open (conv 2)
+            let holds = |i: &MInst| -> bool { i.samples.iter().any(|s| if s.valid { with_opt || !s.optional } else { true }) };
             let (ninst, present) = if conv == 2 {
                 (insts.len() as i64, insts.contains_key(&key))
             } else {
-                (insts.values().filter(|i| cnt(i) > 0).count() as i64, ci > 0)
+                (insts.values().filter(|i| holds(i)).count() as i64, insts.get(&key).map(holds).unwrap_or(false))
             };
             let vi = insts.get(&key).map(|i| i.samples.iter().filter(|s| s.valid && (with_opt || !s.optional)).count()).unwrap_or(0) as i64;
             (ci, ct, ninst, present, vi)
